@@ -19,7 +19,7 @@ from __future__ import annotations
 
 import ast
 
-from .cfg import CFG
+from .cfg import CFG, reaching_defs
 from .effects import FRESH, Ref, _Analyzer
 from .index import const_eval
 from .report import AnalysisError
@@ -48,6 +48,9 @@ class CacheSim:
         self.an = _Analyzer(eng, fi, self_cls)
         self.an.run()  # builds the flow-insensitive alias environment
         self.cfg = CFG(fi.node, exceptions=False)
+        self._rd = reaching_defs(self.cfg)
+        self.an._base_env = dict(self.an.env)
+        self.an._base_types = dict(self.an.types)
         self.lock_withs = [n for n in ast.walk(fi.node) if isinstance(n, (ast.With, ast.AsyncWith)) and any(
             self._is_cache_expr(it.context_expr) for it in n.items)]
         self._in_lock = {}
@@ -93,6 +96,7 @@ class CacheSim:
         saved = an.s
         from .effects import Summary
 
+        an.env, an.types = an.env_at(self.cfg, self._rd, n)
         an.s = Summary()
         kind = self.cfg.kind[n]
         if kind == "stmt":
@@ -106,6 +110,7 @@ class CacheSim:
                 an.read(refs)
         s = an.s
         an.s = saved
+        an.env, an.types = an._base_env, an._base_types
         for (root, path, k) in s.writes:
             if root != self.owner:
                 continue
